@@ -154,6 +154,9 @@ func runStreamProp(c *Ctx, id string) {
 	if id == "C16" {
 		runC16Gauges(c)
 	}
+	if id == "C12" {
+		runReopenRetriesUnderRebalance(c)
+	}
 }
 
 // runC14Keys compares the real key construction and the real reserved-prefix test with Model/Keys.v.
